@@ -172,6 +172,16 @@ Theorem format_independent_on_trees : forall rf f T d,
 Proof. exact load_sim. Qed.
 Print Assumptions format_independent_on_trees.
 
+(* mapping's own front ends — mapping.UnmarshalYamlBytes / UnmarshalTomlBytes (and the Reader
+   variants, which read everything and delegate) against mapping.UnmarshalJsonBytes: the same
+   converters, then the unmarshaller with EXACT keys and no conf layer.  [flok_fields T m]: the
+   float literals of the document sit where their text cannot matter, along exactly-spelled keys. *)
+Theorem mapping_format_independent : forall rf f T m,
+  f <> FJson -> fam_fields T = true -> leaves_ok_map rf m = true -> flok_fields T m = true ->
+  rsim gsim (unmarshal fixed jcfg T (Some (shape rf f (DMap m)))) (unmarshal fixed jcfg T (Some (shape rf FJson (DMap m)))).
+Proof. exact mapping_sim. Qed.
+Print Assumptions mapping_format_independent.
+
 (* Agreement with encoding/json: for types with plain json name tags only (numbers, strings,
    booleans, nested structs, slices, maps, pointers), on decoded JSON objects with distinct keys,
    no key that is a case variant of a field name (F8b), no absent map / pointer field (F8d) and
